@@ -159,5 +159,94 @@ Proof.
   - intro H1. eapply (nodup_app_disj l1 (u :: l2)); eauto. right; auto.
   - intro; subst. apply NoDup_remove_2 in Jn. apply Jn. apply in_or_app; auto.
 Qed.
+
+(* ---------------- completeness: an acyclic graph always passes the cycle check (no false Cycle, fuel suffices) ---------------- *)
+Section Complete.
+Variable n : nat.
+Variable rho : nat -> nat.
+Hypothesis closed : forall u v, u < n -> In v (succs u) -> v < n.
+Hypothesis rk : forall u v, u < n -> In v (succs u) -> rho u < rho v.
+Definition isw (k : col) : bool := match k with White => true | _ => false end.
+Definition W (c : colour) : nat := length (filter (fun m => isw (c m)) (seq 0 n)).
+
+Lemma cnt_mono (l : list nat) (c c' : colour) : (forall m, In m l -> isw (c' m) = true -> isw (c m) = true) ->
+  length (filter (fun m => isw (c' m)) l) <= length (filter (fun m => isw (c m)) l).
+Proof.
+  induction l as [|a l IH]; intros H; simpl; auto.
+  assert (IH' := IH (fun m Hm => H m (or_intror Hm))). specialize (H a (or_introl eq_refl)).
+  destruct (isw (c' a)); destruct (isw (c a)); simpl; first [lia | discriminate (H eq_refl)].
+Qed.
+Lemma cnt_strict (l : list nat) (c c' : colour) x : In x l -> isw (c x) = true -> isw (c' x) = false ->
+  (forall m, In m l -> isw (c' m) = true -> isw (c m) = true) ->
+  length (filter (fun m => isw (c' m)) l) < length (filter (fun m => isw (c m)) l).
+Proof.
+  induction l as [|a l IH]; intros Hx Hc Hc' H; [destruct Hx|]. simpl.
+  assert (M := cnt_mono l c c' (fun m Hm => H m (or_intror Hm))).
+  destruct Hx as [->|Hx].
+  - rewrite Hc, Hc'. simpl. lia.
+  - specialize (IH Hx Hc Hc' (fun m Hm => H m (or_intror Hm))). specialize (H a (or_introl eq_refl)).
+    destruct (isw (c' a)); destruct (isw (c a)); simpl; first [lia | discriminate (H eq_refl)].
+Qed.
+
+Lemma J_gray c fin x : J c fin -> c x = White -> J (setc c x Gray) fin.
+Proof.
+  intros (Jb & Jo & Jn) Hx. split; [|split; auto]. intros m. destruct (Nat.eq_dec m x) as [->|Hne].
+  - rewrite setc_eq. split; [discriminate|]. intro Hin. apply Jb in Hin. congruence.
+  - rewrite setc_neq by auto. apply Jb.
+Qed.
+
+Lemma dfs_complete : forall fuel c fin x, J c fin -> x < n -> c x = White -> W c <= fuel -> (forall g, c g = Gray -> rho g < rho x) ->
+  exists c' fin', dfs fuel c fin x = Done c' fin'.
+Proof.
+  induction fuel as [|fuel IH]; intros c fin x HJ Hx Hw HW Hg.
+  - exfalso. unfold W in HW. assert (In x (filter (fun m => isw (c m)) (seq 0 n))) by (apply filter_In; split; [apply in_seq; lia | rewrite Hw; reflexivity]).
+    destruct (filter (fun m => isw (c m)) (seq 0 n)); [destruct H | simpl in HW; lia].
+  - rewrite dfs_unfold.
+    assert (G : forall vs c0 f0, incl vs (succs x) -> J c0 f0 -> c0 x = Gray -> W c0 <= fuel -> (forall g, c0 g = Gray -> rho g <= rho x) ->
+                exists c' fin', go fuel x vs c0 f0 = Done c' fin').
+    { induction vs as [|v r IHr]; intros c0 f0 Hin J0 Hx0 HW0 Hg0; simpl; [eauto|].
+      assert (Hv : In v (succs x)) by (apply Hin; left; auto).
+      assert (Hr : incl r (succs x)) by (intros y Hy; apply Hin; right; auto).
+      destruct (c0 v) eqn:Cv.
+      - assert (HG : forall g, c0 g = Gray -> rho g < rho v) by (intros g Hgg; specialize (Hg0 g Hgg); specialize (rk x v Hx Hv); lia).
+        destruct (IH c0 f0 v J0 (closed x v Hx Hv) Cv HW0 HG) as (c1 & f1 & D).
+        rewrite D. destruct (dfs_sound _ _ _ _ _ _ J0 Cv D) as (J1 & _ & Hb1 & Hg1).
+        apply IHr; auto.
+        + apply Hg1. exact Hx0.
+        + eapply Nat.le_trans; [|exact HW0]. apply cnt_mono. intros m _ Hm. destruct (c0 m) eqn:Em; auto.
+          * apply Hg1 in Em. rewrite Em in Hm. discriminate.
+          * apply Hb1 in Em. rewrite Em in Hm. discriminate.
+        + intros g Hgg. apply Hg0. apply Hg1. exact Hgg.
+      - exfalso. specialize (Hg0 v Cv). specialize (rk x v Hx Hv). lia.
+      - apply IHr; auto. }
+    apply G.
+    + apply incl_refl.
+    + apply J_gray; auto.
+    + apply setc_eq.
+    + assert (W (setc c x Gray) < W c); [|lia]. apply (cnt_strict (seq 0 n) c (setc c x Gray) x).
+      * apply in_seq. lia.
+      * rewrite Hw. reflexivity.
+      * rewrite setc_eq. reflexivity.
+      * intros m _ Hm. destruct (Nat.eq_dec m x) as [->|Hne]; [rewrite setc_eq in Hm; discriminate | rewrite setc_neq in Hm by auto; auto].
+    + intros g Hgg. destruct (Nat.eq_dec g x) as [->|Hne]; [lia|]. rewrite setc_neq in Hgg by auto. specialize (Hg g Hgg). lia.
+Qed.
+
+Lemma W_le_n c : W c <= n.
+Proof. unfold W. rewrite <- (seq_length n 0) at 2. generalize (seq 0 n). induction l as [|a l IH]; simpl; auto. destruct (isw (c a)); simpl; lia. Qed.
+
+Theorem dfs_all_complete fuel : n <= fuel -> forall ns c fin, J c fin -> (forall m, c m <> Gray) -> (forall x, In x ns -> x < n) ->
+  exists r, dfs_all fuel ns c fin = Some r.
+Proof.
+  intros Hf. induction ns as [|x r IH]; intros c fin HJ Hg Hn; simpl; [eauto|].
+  destruct (c x) eqn:Cx.
+  - assert (HW : W c <= fuel) by (eapply Nat.le_trans; [apply W_le_n | exact Hf]).
+    assert (HG : forall g, c g = Gray -> rho g < rho x) by (intros g Hgg; exfalso; eapply Hg; eauto).
+    destruct (dfs_complete fuel c fin x HJ (Hn x (or_introl eq_refl)) Cx HW HG) as (c1 & f1 & D).
+    rewrite D. destruct (dfs_sound _ _ _ _ _ _ HJ Cx D) as (J1 & _ & _ & Hgr).
+    apply IH; [auto | intros m E; apply Hgr in E; eapply Hg; eauto | intros y Hy; apply Hn; right; auto].
+  - exfalso. eapply Hg; eauto.
+  - apply IH; auto. intros y Hy; apply Hn; right; auto.
+Qed.
+End Complete.
 End DFS.
 Print Assumptions acyclic_rank.
